@@ -40,13 +40,16 @@
          parts_small       not shown necessary (2^64 parts cannot be built); it is what C12E needs for `m_count < 2^64`.
          legal             used through `f_inv` (server lemmas) and for the order of the update channel; no witness
                            searched.
-   P3  (`SMap` under `run_maps_ok`): OPEN.  The client half is parametric (Repl/NoPanicCli_proofs.v `update_safe` asks for
-       `u_maps u = []`); with mappings one needs "an alive unmarked client entity has no history". *)
+   P3  C09F_run_nopanic_maps / C09F_run_total_maps: scripts WITH `SMap` operations (`script_okg`) under `run_maps_ok`
+       (Properties/C03F.v part 6; decidable: `run_maps_okb`), same other premises.  A mapping adopts a pre-spawned client
+       entity, possibly older than the last reset, into the entity map; it has no marker, hence (`cs_inv`) no history
+       (Repl/NoPanicMaps_proofs.v).  C09F_witness_remap shows what `run_maps_ok` excludes.
+   Not done: the event layer with mappings (`erun` is only covered for `script_okf`, the scope of `escript_ok`). *)
 From RV Require Import Lib.Res Repl.ClientTicks Repl.World Vis.Visibility Repl.Server Repl.Client Repl.Sys
   Tick.RepliconTick Tick.ConfirmHistory Tick.MutateTicks
   Repl.Client_proofs Repl.ClientStructSpec Repl.StructE2E_proofs Repl.StructE2EMut_proofs Repl.StructE2ESess_proofs Repl.StructE2EMaps_proofs
   Repl.MtRunSpec Repl.MtRun_proofs Repl.SessRun_proofs Repl.ValSpec
-  Repl.NoPanicCli_proofs Repl.NoPanicRun_proofs Repl.NoPanicAll_proofs.
+  Repl.NoPanicCli_proofs Repl.NoPanicRun_proofs Repl.NoPanicAll_proofs Repl.NoPanicMaps_proofs.
 From RV Require Import Events.Remote Events.RemoteSpec Events.RemoteRun Events.SessRunEv_proofs Events.NoPanicRunEv_proofs.
 From RV Require Properties.C09E Properties.C12E.
 Open Scope N_scope.
@@ -60,7 +63,7 @@ Proof. exact apply_mutations_nopanic. Qed.
 
 (* an update message of tick T without mappings: every history above the watermark W has a last tick satisfying Phi,
    Phi t -> t <= T < 2^31, Phi T *)
-Theorem C09F_update_message_safe : forall W (Phi : N -> Prop) T,
+Theorem C09F_update_message_safe : forall (W : N -> Prop) (Phi : N -> Prop) T,
   (forall t, Phi t -> t <= T) -> T < 2 ^ 31 -> Phi T ->
   forall c u, u_tick u = T -> u_maps u = [] -> cli W Phi c ->
   apply_update_message c u <> Panic /\ forall c', apply_update_message c u = Ok c' -> cli W Phi c'.
@@ -75,9 +78,9 @@ Proof. exact frame_nopanic. Qed.
 
 (* the tick facts of a connected client: its update messages do not panic, and its frame keeps the facts *)
 Theorem C09F_tick_facts_frame : forall (Psi : N -> Prop), (forall t, Psi t -> t < 2 ^ 31) ->
-  forall c lupd lmut ops, cl_status c = Connected -> tfacts Psi c lupd lmut ->
+  forall c lupd lmut ops, cl_status c = Connected -> tfacts nomapsP Psi c lupd lmut ->
   fold_left (res_step apply_update_message) (cl_inbox_upd c) (Ok c) <> Panic /\
-  forall c' out, client_frame c ops = Ok (c', out) -> tfacts Psi c' lupd lmut.
+  forall c' out, client_frame c ops = Ok (c', out) -> tfacts nomapsP Psi c' lupd lmut.
 Proof.
   intros Psi HP c lupd lmut ops Hc H. split; [exact (tfacts_inbox Psi HP c lupd lmut H)|].
   intros c' out E. exact (tfacts_frame Psi HP c lupd lmut ops c' out Hc H E).
@@ -97,7 +100,7 @@ Theorem C09F_run_invariant : forall cfg0 n script y,
   script_okf script = true -> parts_small script = true -> tick_frames script < 2 ^ 31 ->
   run (sys_init cfg0 n) script = Ok y ->
   forall slot c, al_get slot (y_clients y) = Some c ->
-    slot_all (cfg_track cfg0) (tick_frames script) (y_server y) slot (l_upd (get_link y slot)) (l_mut (get_link y slot)) c.
+    slot_all nomapsP (cfg_track cfg0) (tick_frames script) (y_server y) slot (l_upd (get_link y slot)) (l_mut (get_link y slot)) c.
 Proof. exact all_run. Qed.
 
 (* the frame of EVERY connected client of a reachable state *)
@@ -157,6 +160,39 @@ Theorem C09F_live_tracker : forall cfg0 script y G slot c,
   forall m0, cl_mticks c = Some m0 -> mt_confirm_all m0 (ncalls (frame_applied c)) <> Panic.
 Proof. exact tracker_live. Qed.
 
+(* P3: scripts with pre-spawn mappings *)
+Theorem C09F_run_invariant_maps : forall cfg0 n script y,
+  script_okg script = true -> run_maps_ok (sys_init cfg0 n) script -> parts_small script = true -> tick_frames script < 2 ^ 31 ->
+  run (sys_init cfg0 n) script = Ok y ->
+  forall slot c, al_get slot (y_clients y) = Some c ->
+    slot_all mapsP (cfg_track cfg0) (tick_frames script) (y_server y) slot (l_upd (get_link y slot)) (l_mut (get_link y slot)) c.
+Proof. exact all_run_maps. Qed.
+
+Theorem C09F_run_nopanic_maps : forall cfg0 n script,
+  script_okg script = true -> run_maps_ok (sys_init cfg0 n) script -> parts_small script = true -> tick_frames script < 2 ^ 31 ->
+  run (sys_init cfg0 n) script <> Panic.
+Proof. exact run_nopanic_maps. Qed.
+
+Theorem C09F_run_total_maps : forall cfg0 n script,
+  script_okg script = true -> run_maps_okb (sys_init cfg0 n) script = true -> parts_small script = true -> tick_frames script < 2 ^ 31 ->
+  exists y, run (sys_init cfg0 n) script = Ok y.
+Proof.
+  intros cfg0 n script H1 Hm H2 H3. pose proof (run_nopanic_maps cfg0 n script H1 (run_maps_okb_sound script _ Hm) H2 H3) as N1.
+  pose proof (run_noerr script (sys_init cfg0 n)) as N2. destruct (run (sys_init cfg0 n) script) as [y| |]; [exists y; reflexivity|congruence|congruence].
+Qed.
+
+(* the update messages of an inbox with harmless mappings (one client) *)
+Theorem C09F_update_message_safe_maps : forall (W : N -> Prop) (Phi : N -> Prop) T,
+  (forall t, Phi t -> t <= T) -> T < 2 ^ 31 -> Phi T ->
+  forall c u, u_tick u = T -> cs_inv c -> maps_ok (maps_pre c u) (u_maps u) -> cli W Phi c ->
+  apply_update_message c u <> Panic /\
+  forall c', apply_update_message c u = Ok c' -> exists W' : N -> Prop, (forall k, W k -> W' k) /\ cli W' Phi c'.
+Proof. exact update_safe_maps. Qed.
+
+Print Assumptions C09F_run_invariant_maps.
+Print Assumptions C09F_run_nopanic_maps.
+Print Assumptions C09F_run_total_maps.
+Print Assumptions C09F_update_message_safe_maps.
 Print Assumptions C09F_apply_mutations_nopanic.
 Print Assumptions C09F_update_message_safe.
 Print Assumptions C09F_client_frame_nopanic.
@@ -301,6 +337,26 @@ Definition z_remap : list step :=
    StStop; zfr false [] []; StDisconnect 0; StCFrame 0 []; StStart; StConnect 0 1200;
    zfr true [SSpawn 2 true [(0, VNat 5)]; SMap 0 2 7] [(0, [[]])];
    StDeliver 0 true 0 All; StCFrame 0 []].
+
+(* within `run_maps_ok`: in the second session (after the restart) ANOTHER pre-spawned entity, created before the reset
+   and never mapped, is mapped: it is older than the reset, has no marker and no history *)
+Definition z_map_ok : list step :=
+  [StStart; StConnect 0 1200; StCFrame 0 [CPrespawn 7; CPrespawn 8];
+   zfr true [SSpawn 1 true [(0, VNat 5)]; SMap 0 1 7] [(0, [[]])];
+   zfr true [SMutate 1 0 (VNat 6)] [(0, [[]])];
+   zfr true [SInsert 1 1 (VNat 6)] [(0, [[]])];
+   StDeliver 0 true 0 All; StCFrame 0 [];
+   StStop; zfr false [] []; StDisconnect 0; StCFrame 0 []; StStart; StConnect 0 1200;
+   zfr true [SSpawn 2 true [(0, VNat 5)]; SMap 0 2 8] [(0, [[]])];
+   StDeliver 0 true 0 All; StCFrame 0 []].
+
+Example C09F_ex_maps :
+  script_okg z_map_ok = true /\ no_smap z_map_ok = false /\ run_maps_okb (sys_init zcfgN 1) z_map_ok = true /\
+  exists y, run (sys_init zcfgN 1) z_map_ok = Ok y.
+Proof.
+  split; [vm_compute; reflexivity|]. split; [vm_compute; reflexivity|]. split; [vm_compute; reflexivity|].
+  apply C09F_run_total_maps; vm_compute; reflexivity.
+Qed.
 
 Example C09F_witness_remap :
   script_okg z_remap = true /\ parts_small z_remap = true /\ tick_frames z_remap = 4 /\ no_tick0 z_remap = true /\
